@@ -78,6 +78,13 @@ import Mathlib.Tactic.Positivity
                                  over initial fill + sweep every cell is inserted, queried, deleted in this order (east ray:
                                  and re-inserted at the very end); an insertion never meets an active cell, a query or
                                  deletion always does; without the initial fill this fails.
+    * the wrapper glue (section 9, `Model/ViewshedWrapper.lean` interpreting the facts read from `_viewshed_cpu`):
+        `wrapper_source_shape`, `observer_cell_is_nearest_centre`, `resolution_is_coordinate_spacing`,
+        `wrapper_feeds_the_sweep_the_model_inputs`, `observer_outside_is_value_error`
+                                 for all coordinate arrays (ascending / descending, any spacing) the observer's cell is a cell
+                                 whose centre is nearest; on equally spaced coordinates the cell sizes passed to the kernels are
+                                 the signed coordinate steps (no attribute enters), so every key is the squared distance between
+                                 coordinates; each quantity is passed in the position of the kernel parameter that means it.
     * the generated status-tree routines (section 7, layer T3): `generated_query_decides` -- the program translated
       statement by statement from `_max_grad_in_status_struct` decides line of sight on every state whose arrays hold a
       well-linked BST without overestimates below the root; `generated_rotations_are_model_rotations`,
